@@ -340,3 +340,89 @@ class CheckIdentityTask(Task):
             trig = [e for e in I.trace if e.name == "evt"]
             I.ob(f"{P}/handler-invoked-exactly-once-with-the-identity-fields", len(trig) == 1 and trig[0].args[0] == "EVT_USER_ID"
                  and isinstance(trig[0].args[1], dict) and set(trig[0].args[1]) == {"user_id_type", "primary_field", "secondary_field"})
+
+
+class ActiveAssociationsTask(Task):
+    """AE.active_associations (what the limit check counts) is exactly the live Association threads of this AE: every thread
+    that threading.enumerate() reports, is an Association and belongs to this AE - no further condition (an association that
+    is being released, aborted or still negotiating is a live thread and is counted)."""
+    name = "AE.active_associations"
+    ACT = "pynetdicom.ae:ApplicationEntity.active_associations.fget"
+    functions = [ACT]
+
+    def __init__(self, prefix="C14/"):
+        self.prefix = prefix
+
+    def config(self, repo):
+        c = Config()
+        c.ob_prefix = self.prefix
+
+        def enum(I, args, kw):
+            g = I.ghost
+            n = I.fresh("int", "n_threads").e
+            I.assume(n >= 0)
+            isa = z3.Function("thread_is_association", z3.IntSort(), z3.BoolSort())
+            mine = z3.Function("thread_ae_is_this_ae", z3.IntSort(), z3.BoolSort())
+            memo = {}
+
+            def elem(i):
+                k = str(z3.simplify(i))
+                if k not in memo:
+                    memo[k] = self._thread(I, SV(isa(i), "bool"), SV(mine(i), "bool"), f"thread[{k}]")
+                return memo[k]
+            g["threads"] = SymSeq("threads", n, elem)
+            I.trace.append(Ev("threading.enumerate"))
+            return g["threads"]
+        c.ext_models["threading.enumerate"] = enum
+        return c
+
+    def _thread(self, I, is_assoc, is_mine, name):
+        t = Env(name)
+        t.data[("isinstance", "pynetdicom.association:Association")] = is_assoc.e
+        ae = Env(f"{name}.ae")
+        ae.eq_to_self_ae = is_mine
+        t.attrs["ae"] = ae
+        # attributes a (wrong) extra filter could look at: arbitrary
+        for nm in ("is_established", "is_released", "is_aborted", "is_rejected", "_sent_release", "_sent_abort", "is_acceptor",
+                   "is_requestor", "_is_paused"):
+            t.attrs[nm] = I.fresh("bool", f"{name}.{nm}")
+        return t
+
+    def body(self, I):
+        P = f"{self.prefix}{self.ACT}"
+        g = I.ghost
+        me = Env("ae", cls=I.repo.cls("pynetdicom.ae:ApplicationEntity"))
+        g["me"] = me
+        orig_eq = I.eq
+
+        def eq(a, b):
+            for x, y in ((a, b), (b, a)):
+                if isinstance(x, Env) and hasattr(x, "eq_to_self_ae") and y is me:
+                    return x.eq_to_self_ae.e
+            return orig_eq(a, b)
+        I.eq = eq
+        try:
+            kind, val = I.run_function(I.repo.func(self.ACT), [me])
+        finally:
+            I.eq = orig_eq
+        I.ob(f"{P}/no-exception", kind == "return", detail=f"{kind}:{val!r}")
+        if kind != "return":
+            return
+        threads = g.get("threads")
+        I.ob(f"{P}/reads-the-live-threads-once", [e.name for e in I.trace].count("threading.enumerate") == 1)
+        # the result is a chain of filters over the thread list; its combined condition on a generic thread
+        conds, cur = [], val
+        probe_a, probe_m = I.fresh("bool", "probe_is_association"), I.fresh("bool", "probe_ae_is_this_ae")
+        probe = self._thread(I, probe_a, probe_m, "probe_thread")
+        I.eq = eq
+        try:
+            while isinstance(cur, SymSeq) and cur is not threads and getattr(cur, "filter_of", None) is not None:
+                conds.append(cur.filter_cond(probe))
+                cur = cur.filter_of
+        finally:
+            I.eq = orig_eq
+        ok = cur is threads and bool(conds)
+        I.ob(f"{P}/the-result-is-a-selection-of-the-live-threads", ok, detail=repr(getattr(cur, "name", cur)))
+        if ok:
+            I.ob(f"{P}/selects-exactly-the-Association-threads-of-this-AE-whatever-their-state",
+                 z3.And(conds) == z3.And(probe_a.e, probe_m.e))
